@@ -1,10 +1,14 @@
 /-
 Driver for C16.  Lines (after the leading `C16`):
 
-  meta <u:T|F> <k:none|numpy|pandas> <base:N|A>:<dims> <B rows> <op> ...
+  meta <u:T|F> <k:none|numpy|pandas> <base:N|A>:<dims> <tied positions> <union members> <B rows> <op> ...
+      union members = `-` or F<w>/C<w> per member of a feature union, w = number of output columns
+                      (F: builds a fresh DataFrame, C: Tabularizer — follows the input container and keeps its labels)
+      tied  = positions of the batch whose label was drawn by the random tie-break (masked as `tie`)
       dims  = instances `|`, per instance the series length of each column `,` (`_` = no instance)
       B     = canonical rows of the batch output of the REAL fitted estimator, `|`-separated, opaque
       op    = sel:<idx list>            rows the model predicts for the batch restricted to positions idx
+            | lsel:<idx list>           the same with the index labels of the selected rows kept (`X.iloc[idx]`)
             | cont                      the same data in the other container at apply time
             | contfit:<u>:<k>:<dims>    the same training data in the other container at fit time
     answer: b=<ok|E:value> r0=<rows|E:value> r1=...
@@ -54,14 +58,49 @@ def bothContainers (cfg : CheckCfg) (rows : List Inst) (B : List String) : Strin
   | none, none => "E:value"
   | _, _ => "DIFF"
 
-def runOp (cfg : CheckCfg) (asArr : Bool) (rows : List Inst) (B : List String) (op : String) : Option String :=
+def parseMembers? (s : String) : Option (List (MemberOut × Nat)) :=
+  if s == "-" then some [] else
+  (s.splitOn ",").mapM (fun t =>
+    match t.toList with
+    | 'F' :: w => (String.ofList w).toNat?.map (fun n => (MemberOut.alwaysFrame, n))
+    | 'C' :: w => (String.ofList w).toNat?.map (fun n => (MemberOut.followsInput, n))
+    | _ => none)
+
+def nanCells (w : Nat) : List String := List.replicate w "nan"
+
+/-- `X.iloc[idx]` with the index labels kept, handed to a union of two members: a member that builds
+a fresh frame labels its rows 0..k-1, a member that keeps the caller's index labels them `idx` -/
+def labelledSelect (hs : List (MemberOut × Nat)) (idx : List Nat) (B : List String) : String :=
+  match hs with
+  | [(m1, w1), (m2, w2)] =>
+    let cells := (select idx B).map (fun r => r.splitOn ",")
+    let lab (m : MemberOut) (part : List (List String)) : List (Int × List String) :=
+      match m with
+      | .alwaysFrame => freshLabels part
+      | .followsInput => (idx.map (fun (i : Nat) => Int.ofNat i)).zip part
+    let A := lab m1 (cells.map (fun c => c.take w1))
+    let Bf := lab m2 (cells.map (fun c => c.drop w1))
+    match concat2 A Bf with
+    | .ok rows => showRows (rows.map (fun (a, b) => ",".intercalate (a.getD (nanCells w1) ++ b.getD (nanCells w2))))
+    | .error _ => "E:other"
+  | _ => showRows (select idx B)
+
+def runOp (cfg : CheckCfg) (asArr : Bool) (hs : List (MemberOut × Nat)) (rows : List Inst) (B : List String) (op : String) : Option String :=
   match op.splitOn ":" with
+  | ["lsel", idx] => do
+      let idx ← parseNatList? idx
+      match applyFitted cfg (fun _ => ()) ((mkX asArr rows).select idx) with
+      | .ok _ => some (if asArr then showRows (select idx B) else labelledSelect hs idx B)
+      | .error _ => some "E:value"
   | ["sel", idx] => do
       let idx ← parseNatList? idx
       match applyFitted cfg (fun _ => ()) ((mkX asArr rows).select idx) with
       | .ok _ => some (showRows (select idx B))
       | .error _ => some "E:value"
-  | ["cont"] => some (bothContainers cfg rows B)
+  | ["cont"] =>
+      match unionAccepts (hs.map (·.1)) (!asArr) with
+      | .ok _ => some (bothContainers cfg rows B)
+      | .error _ => some "E:type"
   | ["contfit", u, k, d] => do
       let cfgF ← parseCfg? u k
       let rf ← parseDims? d
@@ -93,17 +132,18 @@ def colMean (rows : List (List Rat)) : List Rat :=
 
 def handle (toks : List String) : String :=
   match toks with
-  | "meta" :: u :: k :: base :: b :: ops =>
-    match parseCfg? u k, parseBase? base with
-    | some cfg, some (asArr, rows) =>
-      let B := parseRows b
-      let bOk := match checkX cfg (mkX asArr rows) with | .ok _ => "ok" | .error _ => "E:value"
-      match ops.mapM (runOp cfg asArr rows B) with
+  | "meta" :: u :: k :: base :: ties :: hs :: b :: ops =>
+    match parseCfg? u k, parseBase? base, parseNatList? ties, parseMembers? hs with
+    | some cfg, some (asArr, rows), some ties, some hs =>
+      let B := maskTies ties "tie" (parseRows b)
+      let bOk := match checkX cfg (mkX asArr rows), unionAccepts (hs.map (·.1)) asArr with
+        | .ok _, .ok _ => "ok" | .ok _, .error _ => "E:type" | .error _, _ => "E:value"
+      match ops.mapM (runOp cfg asArr hs rows B) with
       | some outs =>
-        let outs := if bOk == "ok" then outs else outs.map (fun _ => "E:value")
+        let outs := if bOk == "ok" then outs else outs.map (fun _ => bOk)
         " ".intercalate (s!"b={bOk}" :: (outs.zipIdx.map (fun (o, i) => s!"r{i}={o}")))
       | none => "bad-op"
-    | _, _ => "bad-op"
+    | _, _, _, _ => "bad-op"
   | ["shape", t] =>
     match parseShape t.toList with
     | some (s, []) => s!"rowwise={showBool s.rowWise}"
